@@ -78,6 +78,10 @@ pub trait Prop {
     fn assumptions(&self) -> Vec<&'static str> {
         vec![]
     }
+    /// Ratio bounds between two counters: (numerator, denominator, min, max); outside -> inconclusive.
+    fn ratios(&self) -> Vec<(&'static str, &'static str, f64, f64)> {
+        vec![]
+    }
 }
 
 pub struct Violation {
@@ -370,6 +374,7 @@ pub fn run(prop: &dyn Prop, args: &RunArgs) -> i32 {
         }
     }
     let floors: Vec<Value> = prop.floors().iter().map(|(n, q, t)| json!({"counter": n, "quick": q, "thorough": t})).collect();
+    let ratios: Vec<Value> = prop.ratios().iter().map(|(a, b, lo, hi)| json!({"num": a, "den": b, "min": lo, "max": hi})).collect();
     let viols: Vec<Value> = cx
         .viols
         .iter()
@@ -391,6 +396,7 @@ pub fn run(prop: &dyn Prop, args: &RunArgs) -> i32 {
         "truncated": truncated,
         "rule": prop.rule(),
         "floors": floors,
+        "ratios": ratios,
         "assumptions": prop.assumptions(),
         "wall_s": start.elapsed().as_secs_f64(),
         "hooks": cfg!(lucid_suggest_verif),
